@@ -51,7 +51,7 @@ ASSUMPTIONS = [
     "refusal is only demanded when the corresponding centres are farther apart than every patch radius of "
     "every catalog involved (the library compares against half the radius of its largest catalog)",
 ]
-PROBES = ["caller_modified_centre_array", "patch_column_and_centres_given", "misaligned_first_and_smaller", "single_record_patch", "mode_apply", "mode_divide", "mode_create", "refusal_ids", "refusal_permuted", "refusal_displaced", "refusal_single_displaced", "nometa_parallel_open"]
+PROBES = ["overwrite_of_a_restored_catalog", "caller_modified_centre_array", "patch_column_and_centres_given", "misaligned_first_and_smaller", "single_record_patch", "mode_apply", "mode_divide", "mode_create", "refusal_ids", "refusal_permuted", "refusal_displaced", "refusal_single_displaced", "nometa_parallel_open"]
 REAL_VS_STUB = dict(
     real="yaw catalog creation, Patch/Metadata, load_patches, PatchLinkage guards, YAML; tmpfs",
     stub="multiprocessing (sim.fakemp), treecorr RNG/threads, _num_processes",
@@ -103,6 +103,7 @@ def gen_case(prng: Prng, tier: str, i: int) -> dict:
         sched_seed=prng.below(1 << 40),
         open_workers=prng.choice([2, 3, 5]),
         open_seed=prng.below(1 << 40),
+        **(dict(prior="catalog_reopened", overwrite=True) if prng.chance(1, 5) else {}),
     )
 
 
@@ -150,6 +151,8 @@ def _part_a(case: dict, root: str) -> dict:
 
     o = creation.run_creation(case, os.path.join(root, "a"))
     probes = {f"mode_{case['patch']['mode']}": 1}
+    if case.get("prior") == "catalog_reopened":
+        probes["overwrite_of_a_restored_catalog"] = 1
     if case["patch"].get("extra_pid_column"):
         probes["patch_column_and_centres_given"] = 1
     try:
